@@ -220,6 +220,37 @@ func (s *seqRun[T, L]) holdBytes(origin, desc string, b []byte) {
 		}})
 }
 
+// relation: the operation that related list b to the target a, directly or through a chain
+// of earlier lists (the operation on the last edge of the chain, the one that produced or
+// fed b); "" when nothing relates them.
+func (s *seqRun[T, L]) relation(a, b int) string {
+	if op := s.links[pairOf(a, b)]; op != "" {
+		return op
+	}
+	seen := map[int]bool{a: true}
+	queue := []int{a}
+	for len(queue) > 0 {
+		x := queue[0]
+		queue = queue[1:]
+		// deterministic order: ids ascending
+		for y := 0; y < s.nextID; y++ {
+			if seen[y] {
+				continue
+			}
+			op := s.links[pairOf(x, y)]
+			if op == "" {
+				continue
+			}
+			if y == b {
+				return op
+			}
+			seen[y] = true
+			queue = append(queue, y)
+		}
+	}
+	return ""
+}
+
 // diff compares one list with its model: size, ToArray, every element.
 func (s *seqRun[T, L]) diff(p *plist[T, L]) (method, kindStr, msg string) {
 	if sz := p.l.Size(); sz != len(p.m) {
@@ -275,7 +306,7 @@ func (s *seqRun[T, L]) verifyAll(after, blame string) bool {
 			}
 			s.fail(method, kd, "after "+after+": "+msg)
 		default:
-			if link := s.links[pairOf(s.t.id, p.id)]; link != "" {
+			if link := s.relation(s.t.id, p.id); link != "" {
 				s.fail(link, "aliased", fmt.Sprintf("after %s on L%d the list L%d, which this operation does not touch (the two were related by an earlier %s), changed: %s", after, s.t.id, p.id, link, msg))
 			} else {
 				s.fail(after, "changed-other-list", fmt.Sprintf("after %s on L%d the list L%d, which this operation does not touch, changed: %s", after, s.t.id, p.id, msg))
